@@ -254,11 +254,13 @@ RECURSIVE PickPos(_, _, _)
 PickPos(q, P, i) == IF i > Len(q) THEN <<>> ELSE (IF i \in P THEN <<q[i]>> ELSE <<>>) \o PickPos(q, P, i + 1)
 \* one StreamingPull request that acknowledges ids and sets a zero deadline on nids (the
 \* deliveries the stream's sender hands out before and after it are Pull steps of their own)
-StreamAN(snm, ids, nids) ==
+\* fcb: the stream's max_outstanding_bytes (0 = practically unlimited); a small budget makes the
+\* stream's fetches skip messages that do not fit
+StreamAN(snm, ids, nids, fcb) ==
   LET X == SubsNamed(S, snm)
       A == RangeOf(ids)
       I == RangeOf(nids)
-      e == [op |-> "StreamAN", sub |-> snm, ids |-> ids, nids |-> nids]
+      e == [op |-> "StreamAN", sub |-> snm, ids |-> ids, nids |-> nids, fcb |-> fcb]
   IN IF X = {} THEN Fail(e, "NotFound")
      ELSE OK(e, [S EXCEPT !.del = [d \in DOMAIN @ |->
                    IF d \in A /\ @[d].done = -1 THEN [@[d] EXCEPT !.done = S.now]
@@ -435,6 +437,7 @@ OpNext(op) ==
     [] op = "UpdateSub" -> \E c \in SubCfgs, mk \in UpdMasks : UpdateSub(c, mk)
     [] op = "UpdateFilter" -> \E c \in SubCfgs : UpdateSub(c, <<"filt">>)
     [] op = "UpdateRetry" -> \E c \in SubCfgs : UpdateSub(c, <<"retry">>)
+    [] op = "UpdateDL" -> \E c \in SubCfgs : UpdateSub(c, <<"dl">>)
     [] op = "UpdateTTL" -> \E c \in SubCfgs : UpdateSub(c, <<"ttl">>) \/ UpdateSub(c, <<"mttl">>)
     [] op = "SetDelay" -> \E nm \in SubNames, d \in Delays : SetDelay(nm, d)
     [] op = "Publish" -> \E nm \in TopicNames, b \in Batches : Publish(nm, b)
@@ -450,8 +453,8 @@ OpNext(op) ==
     [] op = "Ack" -> \E nm \in SubNames, q \in IdSeqs : Ack(nm, q)
     [] op = "ModAck" -> \E nm \in SubNames, q \in IdSeqs, x \in ModSecs : ModAck(nm, q, x)
     [] op = "Nack" -> \E q \in IdSeqs : Nack(q)
-    [] op = "StreamAN" -> \E nm \in SubNames, q \in IdSeqs, P \in SUBSET (1..AckMax) :
-                            StreamAN(nm, PickPos(q, P, 1), PickPos(q, (1..AckMax) \ P, 1))
+    [] op = "StreamAN" -> \E nm \in SubNames, q \in IdSeqs, P \in SUBSET (1..AckMax), b \in (IF Depth > 0 THEN {0, 40, 70, 100} ELSE {0}) :
+                            StreamAN(nm, PickPos(q, P, 1), PickPos(q, (1..AckMax) \ P, 1), b)
     [] op = "SeekTime" -> SeekAny
     [] op = "CreateSnap" -> \E n \in SnapNames, nm \in SubNames : CreateSnap(n, nm)
     [] op = "DeleteSnap" -> \E n \in SnapNames : DeleteSnap(n)
